@@ -30,6 +30,12 @@ CLAIMED = {
   text="Decides the structural clauses behind splitting, locality and all-or-nothing for every input: FRM - every decoder invocation in unmarshal takes the one value rawData[:n], n = 4*(Length+1) holds as an integer identity and 4 <= n <= len(rawData) at every possibly-successful return, processed = n, Length is the big-endian uint16 of bytes 2..3, both datagram loops thread rest = rest[processed:] of the same call, append that call's packet and run until the remainder is empty; VER - Header.Unmarshal returns a non-nil error for all 192 first octets whose version is not 2; LOC - all ~370 index/slice/binary accesses of the 22 decoders are within the LENGTH of the slice they were handed and nothing uses cap() or 3-index slices, so no decoder can see a neighbour frame; AON - error returns of Unmarshal carry the constant nil slice, a nil-error return has at least one packet, CompoundPacket.Unmarshal stores its receiver only after the last decode call; ERR - no callee error is dropped. It does not run Unmarshal(a||b): equality of the decoded values with Unmarshal(a), Unmarshal(b) follows from LOC + C18 determinism, not from a comparison of outputs.",
   note="Trusted: go/ssa, checker/num with the decoder summaries of C01, checker/pe, encoding/binary model. A decoder that returns nil for a frame it should reject is C07/C04 territory.",
   design="DESIGN.md §2 C06"),
+ "C12": dict(
+  level="other",
+  technique="static analysis: abstract interpretation of go/ssa with exact uint16 wrap-around kept as congruences mod 2^16, ghost state for the callback protocol, SSA def-use rules for the collecting closure",
+  text="Decides necessary conditions of the NACK helper contract for all 2^32 pairs / all input lists at once: RNG-STOP - at every callback call site of Range the most recent callback result is entailed true (no call can follow a false result), RNG-ARG - the first argument is PacketID and every other argument is congruent mod 2^16 to PacketID+k with 1<=k<=16 (k-1 a bit index forced below 16 by the dominating bit test), PL - PacketList's closure returns the constant true on every path, appends exactly its argument to an initially empty list, and that list is returned after Range, NPS-SHIFT - the bit OR-ed into LostPackets is 1 << s with s congruent to (element - PacketID - 1) mod 2^16 as program integers (not masked or offset), NPS-DIST - at that site the modular distance is entailed <= 16. Not decided: that every set bit is visited in ascending order and that no requested number is missing from the pairs (needs a bit-level loop invariant outside the linear domain) - stated as not covered; a reader must not take this as full equivalence of the covered sets.",
+  note="Trusted: go/ssa, checker/num (wrap congruences, bit-test refinement, load value numbering between stores). Assumes the callback does not modify the pair it iterates.",
+  design="DESIGN.md §2 C12"),
  "C08": dict(
   level="other",
   technique="static analysis: abstract interpretation of go/ssa (linear constraints, exact fixed-width wrap-around) of every encoder with per-call-string narrowing obligations and an error-discipline rule",
